@@ -1,6 +1,8 @@
 //! txbal engine (C01, C12): realises model bodies over small-integer commitments (v, r) with real
 //! secp256k1-zkp crypto and calls the real Transaction::validate / Block::validate /
-//! aggregate / deaggregate / CompactBlock / Block::hydrate_from.
+//! aggregate / deaggregate / CompactBlock / Block::hydrate_from; batch plans on
+//! TxKernel::batch_sig_verify / Output::batch_verify_proofs (batch.rs) and full-state plans on
+//! Chain::validate over a real chain directory (state.rs).
 //!
 //! The harness never decides validity: it builds the object the case describes, calls the code
 //! under test, and reports the result class and the projection of the resulting object back to
